@@ -51,7 +51,8 @@ def run_unit(unit):
     cases = [sp[i] for i in idxs]
     out = UnitOut()
     # quick: the sanitizer build (the slowest compile) on every second batch; thorough: on all
-    with_asan = tier != "quick" or (idxs[0] // BATCH) % 2 == 0
+    # thorough: on every second batch as well, and on every batch that holds a state of the quick space
+    with_asan = (idxs[0] // BATCH) % 2 == 0 or (tier != "quick" and any(copt.full_sweeps_for(c, tier) for c in cases))
     with Scratch() as sc:
         run_batch(pid, tier, cases, sc, out, with_asan=with_asan)
     return out.result()
@@ -275,6 +276,8 @@ def _run_py_case(pid, tier, c, mod, out):
         return
     # backgrounds: zero, ones, alternating bits, and two in which every leaf holds a different value (k, k * 2654435761)
     base_vecs = values.basis(leaves)[:2] + values.basis(leaves)[-1:] + values.big_vectors(leaves)[2:4]
+    if not copt.full_sweeps_for(c, tier):
+        base_vecs = base_vecs[:1] + base_vecs[3:4]  # thorough, states beyond the quick space: zero and the all-different background
     for bv in base_vecs:
         for li, l in enumerate(leaves):
             if l.kind not in ("uint", "int", "byte", "bool"):
@@ -332,7 +335,7 @@ def main(pid, tier):
         evaluations=c["evaluations"], distinct_nontrivial=c["nontrivial"],
         constants_checked=c["constants_checked"], python_out_of_range_executions=c["py_oor"],
         python_out_of_range_rejected_at_assignment=c["py_oor_rejected_at_assignment"],
-        configurations=["std-O2 (guard pages)", "asan (clang ASan+UBSan, alignment check excluded; quick: every second batch)", "opt-little", "opt-big", "python"],
+        configurations=["std-O2 (guard pages)", "asan (clang ASan+UBSan, alignment check excluded; every second batch, thorough: also every batch holding a quick-space state)", "opt-little", "opt-big", "python"],
         rule="states = SING u COMB u TREE; (a) 4 constants per state; (b) every ENC/DEC with struct and wire flush against PROT_NONE pages at "
              "both ends, and again under ASan+UBSan; (c) storage sweep (every byte value in every storage byte of every integer/enum leaf, two "
              "backgrounds) on standard mode and on -O little/big for traditional states, Python out-of-range integers v+k*2^n, negative for "
